@@ -59,3 +59,20 @@ def smooth_field(shape, waves, amp: float, phase: float = 0.0) -> np.ndarray:
         sh[ax] = n
         out = out * s.reshape(sh)
     return out
+
+
+def grid_state(grid):
+    """Snapshot of every attribute of a deepali Grid (incl. the fractional internal size and the flag)."""
+    return (grid._size.clone(), grid.spacing().clone(), grid.center().clone(), grid.direction().clone(), bool(grid.align_corners()))
+
+
+def assert_grid_intact(grid, state, what: str = "grid"):
+    """The Grid object must be exactly as it was when `state` was taken (no API call on it may modify it)."""
+    from vlib.core import Violation
+
+    now = grid_state(grid)
+    names = ("size", "spacing", "center", "direction", "align_corners")
+    for n, a, b in zip(names, state, now):
+        same = (a == b) if isinstance(a, bool) else (a.shape == b.shape and bool(torch.equal(a, b)))
+        if not same:
+            raise Violation("grid_object_modified:" + n, f"{what}: attribute '{n}' of the Grid object changed from {a} to {b} during read-only calls")
